@@ -39,7 +39,7 @@ TRUSTED = ["harness/props/c07.py: observation of the real WCS after every op vs 
            "independent Python reference list (obvious list edits) as oracle"]
 ASSUMPTIONS = ["astropy compound model composition and ModelBoundingBox.validate (modelled, exercised)"]
 MISSING = "<missing>"
-POOL = ["detector", "focal", "sky", "v2v3", "world", "inter", "slit"]
+POOL = ["detector", "focal", "sky", "v2v3", "world", "inter", "slit", "det", "focal_undistorted", "sky_rot"]
 
 
 def _mk_frame(name, naxes, objs, as_obj):
@@ -99,7 +99,9 @@ def _observe(w, objs):
         for b in names:
             pairs.append([a, b, _probe_obs(lambda: w.get_transform(a, b))])
     fwd = _probe_obs(lambda: w.forward_transform)
-    return {"names": names, "attrs": attrs, "bbox": box, "pairs": pairs, "fwd": fwd}
+    # which object each pipeline step holds: "str" for a bare name, else the id of the frame object
+    steps = [["str" if isinstance(s.frame, str) else objs["ids"].get(id(s.frame), -1)] for s in w.pipeline]
+    return {"names": names, "attrs": attrs, "bbox": box, "pairs": pairs, "fwd": fwd, "step_frames": steps}
 
 
 def _apply(w, op, objs):
@@ -300,6 +302,16 @@ def oracle(case, res):
             if obs["names"] != ref.names():
                 out.append(("frames", "after op %d %s frames are %s, reference list has %s" % (n, _short(op), obs["names"], ref.names())))
                 break
+            # every frame object in the pipeline is the object exposed under its name, and an edit never swaps the object (or turns
+            # it into a bare name) of a frame that was already in the pipeline
+            for nm_, (sf,) in zip(obs["names"], obs["step_frames"]):
+                if sf != "str" and obs["attrs"].get(nm_) != sf:
+                    out.append(("identity", "after op %d %s the pipeline holds frame object %s for '%s' but the WCS exposes %s under that name" %
+                                (n, _short(op), sf, nm_, obs["attrs"].get(nm_))))
+                if nm_ in prev["names"]:
+                    was = prev["step_frames"][prev["names"].index(nm_)][0]
+                    if was != sf:
+                        out.append(("identity", "op %d %s replaced the pipeline's frame '%s' (%s) by %s" % (n, _short(op), nm_, was, sf)))
             exp_attrs = dict(ref.attrs)
             if obs["attrs"] != exp_attrs:
                 out.append(("attrs", "after op %d %s frame attributes are %s, expected %s" % (n, _short(op), obs["attrs"], exp_attrs)))
